@@ -272,7 +272,7 @@ func runC20(c *Ctx) {
 		c.Saw(cw)
 		ok := false
 		for _, call := range callsIn(cw) {
-			if callee := call.Common().StaticCallee(); callee != nil && callee.Name() == "call" {
+			if callee := call.Common().StaticCallee(); callee != nil && callee == clientExchange(w) {
 				ex := w.Expr(call.Common().Args[len(call.Common().Args)-1])
 				// append([1]byte{wait}[:], code)
 				ok = strings.Contains(ex, "builtin:append") && findStoreOf(w, call.Common().Args[len(call.Common().Args)-1], "p1")
